@@ -534,6 +534,9 @@ func (fr *Frame) convert(st *State, pc Term, ins *ssa.Convert) Val {
 		e.declareFun("bytes_of_string", []Sort{SString}, to)
 		r := App(to, "bytes_of_string", t)
 		e.assume(Eq(e.p.U.SLen(r), App(SInt, "str.len", t)))
+		// converting back yields the same string
+		e.declareFun("string_of_bytes_"+string(to), []Sort{to}, SString)
+		e.assume(Eq(App(SString, "string_of_bytes_"+string(to), r), t))
 		return e.wrap(st, r, "fresh")
 	case e.p.U.IsSlice(from) && to == SString:
 		e.declareFun("string_of_bytes_"+string(from), []Sort{from}, SString)
